@@ -87,4 +87,16 @@ StartOfDay(z, d0) ==
 Views(z, t) == LET w == Wall(z, t) IN [t |-> t, w |-> w, day |-> w \div 86400, sod |-> w % 86400, off |-> OffsetAt(z, t), ti |-> t, cmp |-> <<1, 0, -1>>]
 \* toString then from_str (offset option reject): the printed offset has minute precision and is matched at minute precision
 StringTrip(z, t) == Interpret(z, Wall(z, t), "offset", RoundToMinute(OffsetAt(z, t)), "compatible", "reject", TRUE)
+\* toString with a rounding precision (smallestUnit minute / second and a rounding mode): the INSTANT is rounded first, as if positive,
+\* and the text shows the wall-clock reading and the (minute-rounded) offset the zone has AT THE ROUNDED INSTANT - which may lie on the
+\* other side of a transition.  fd: the tenths of a second the instant carries; unit: 1 or 60 seconds.
+RoundedSec(t, fd, unit, mode) ==
+  LET rem == (t % unit) * 10 + fd
+      up == CASE mode \in {"ceil", "expand"} -> rem > 0
+              [] mode \in {"halfExpand", "halfCeil"} -> 2 * rem >= unit * 10
+              [] mode \in {"halfTrunc", "halfFloor"} -> 2 * rem > unit * 10
+              [] OTHER -> FALSE
+  IN t - (t % unit) + (IF up THEN unit ELSE 0)
+\* (at minute precision the text has no seconds: those of the wall reading - an offset may have seconds - are dropped)
+RoundedText(z, t, fd, unit, mode) == LET r == RoundedSec(t, fd, unit, mode)  w == Wall(z, r) IN [w |-> w - (w % unit), off |-> RoundToMinute(OffsetAt(z, r))]
 =============================================================================
